@@ -50,6 +50,10 @@ func fatSpec(rng *PRNG) []byte {
 		props["Tag_p"] = map[string]any{"type": "string"}
 		props["tag_p"] = map[string]any{"type": "integer"}
 		props["kind"] = map[string]any{"type": "string"}
+		// a property carrying several vendor extensions, in the spellings of this and of other
+		// generators, with different values (the extension map has >= 4 entries)
+		props["seen_p"] = map[string]any{"type": "string", "format": "date-time", "x-goag-go-time-format": "time.RFC3339", "x-go-time-format": "time.RFC1123",
+			"x-go-name": "SeenAt", "x-oapi-codegen-extra-tags": map[string]any{"db": "seen"}, "x-order": 3, "X-GOAG-GO-TIME-FORMAT": "time.Kitchen"}
 		req = append(req, "kind")
 		schemas["Obj"+strings.Title(n)] = map[string]any{"type": "object", "properties": props, "required": req}
 		objNames = append(objNames, "Obj"+strings.Title(n))
@@ -169,6 +173,10 @@ func facetGen1(args []string) error {
 	return nil
 }
 
+const failingSpec = `{"openapi":"3.0.3","info":{"title":"t","version":"1"},"paths":{"/x":{"get":{"parameters":[{"in":"query","name":"filter","schema":{"type":"object","properties":{"a":{"type":"string"}}}}],"responses":{"200":{"description":"ok","content":{"application/json":{"schema":{"type":"object","properties":{"v":{"type":"string"}}}}}}}}}}}`
+
+const otherSpec = `{"openapi":"3.0.3","info":{"title":"t","version":"1"},"paths":{"/other/{id}":{"get":{"parameters":[{"in":"path","name":"id","required":true,"schema":{"type":"integer"}}],"responses":{"200":{"description":"ok"}}}}}}`
+
 func facetDeterm(args []string) error {
 	fs := flag.NewFlagSet("determ", flag.ExitOnError)
 	seed := fs.Uint64("seed", 1, "seed")
@@ -235,6 +243,16 @@ func facetDeterm(args []string) error {
 			}
 			hashes = append(hashes, hashDir(res.Dir))
 			os.RemoveAll(w)
+			if r%3 == 1 {
+				// other work of the same process in between: a run that FAILS while rendering (an
+				// object-typed query parameter) and a run with other options; neither may leave anything
+				// behind that reaches the next run's bytes
+				wf := filepath.Join(*work, fmt.Sprintf("%s_f%d", s.name, r))
+				runGoag(wf, GenSpec{Name: "q", Spec: []byte(failingSpec), Ext: "json", Client: true, DoNotEdit: false})
+				os.RemoveAll(wf)
+				runGoag(wf, GenSpec{Name: "other", Spec: []byte(otherSpec), Ext: "json", Client: false, DoNotEdit: false, BasePath: "/zz"})
+				os.RemoveAll(wf)
+			}
 		}
 		if outcome == "" {
 			specFile := filepath.Join(*work, s.name+"."+s.ext)
@@ -261,7 +279,12 @@ func facetDeterm(args []string) error {
 		}
 		verdict := "same"
 		var diff []string
-		if outcome != "" {
+		if outcome != "" && len(hashes) > 0 {
+			// an earlier run of the very same invocation succeeded: the outcome itself is not a
+			// function of the inputs
+			verdict = "DIFFERENT"
+			diff = append(diff, "outcome("+outcome+")")
+		} else if outcome != "" {
 			verdict = "not-generated"
 		} else {
 			for _, h := range hashes[1:] {
